@@ -94,6 +94,12 @@ pub mod ax {
     // TRUSTED: String's PartialEq compares the character sequences.
     pub broadcast axiom fn string_peq(a: String, b: String)
         ensures #[trigger] super::stdspec::peq::<String>(a, b) <==> a@ == b@;
+//# section: ax-display-ref
+    // TRUSTED: `impl<T: Display> Display for &T` forwards to T (std), so a reference can be formatted
+    // whenever the value can.
+    pub broadcast axiom fn display_ref<T: core::fmt::Display>(x: &T, f: &core::fmt::Formatter<'_>)
+        requires DisplaySpec::fmt_req(x, f)
+        ensures #[trigger] DisplaySpec::fmt_req(&x, f);
 //# section: ax-end
 }
 //# section: stdspec-begin
@@ -132,6 +138,10 @@ pub mod stdspec {
     // TRUSTED: <[T]>::contains(x) is `exists i. self[i] == *x` (std docs).
     pub assume_specification<T: PartialEq> [<[T]>::contains] (s: &[T], x: &T) -> (b: bool)
         ensures b <==> exists|i: int| 0 <= i < s@.len() && peq::<T>(#[trigger] s@[i], *x);
+//# section: stdspec-as-deref
+    // TRUSTED: Option::as_deref keeps presence (std docs: `Option<T>` -> `Option<&T::Target>`).
+    pub assume_specification<T: core::ops::Deref> [Option::<T>::as_deref] (o: &Option<T>) -> (r: Option<&<T as core::ops::Deref>::Target>)
+        ensures r is Some <==> o is Some;
 //# section: stdspec-drop
     pub assume_specification<T> [core::mem::drop::<T>] (x: T);
 //# section: stdspec-end
